@@ -38,8 +38,16 @@ func runHist(c *caseT) string {
 		res    []interface{}
 		render string
 		op     int
+		grown  []interface{} // the caller appends to its result: the spare capacity is the caller's too
 	}
 	var keep []kept
+	sentinel := "caller-owned"
+	grow := func(res []interface{}) []interface{} {
+		if cap(res) > len(res) {
+			return append(res, sentinel)
+		}
+		return nil
+	}
 	for k, op := range c.Ops {
 		switch op.Op {
 		case "parse", "retrieve":
@@ -77,7 +85,7 @@ func runHist(c *caseT) string {
 			res, eobs := evalObs(f, doc)
 			fmt.Fprintf(&b, "\tO%d=%s|%s", k, eobs, rec.take())
 			if res != nil {
-				keep = append(keep, kept{res, eobs, k})
+				keep = append(keep, kept{res, eobs, k, grow(res)})
 			}
 		case "call":
 			f := slots[op.Slot]
@@ -94,7 +102,7 @@ func runHist(c *caseT) string {
 				fmt.Fprintf(&b, "!mutated")
 			}
 			if res != nil {
-				keep = append(keep, kept{res, eobs, k})
+				keep = append(keep, kept{res, eobs, k, grow(res)})
 			}
 		case "churn":
 			// unrelated work that recycles the pooled buffers
@@ -114,6 +122,11 @@ func runHist(c *caseT) string {
 		}
 		if now := "ok:[" + strings.Join(parts, ",") + "]"; now != kp.render {
 			stale = append(stale, fmt.Sprintf("%d:%s", kp.op, now))
+		}
+		if kp.grown != nil {
+			if v, ok := kp.grown[len(kp.res)].(string); !ok || v != sentinel {
+				stale = append(stale, fmt.Sprintf("%d:appended-element-overwritten", kp.op))
+			}
 		}
 	}
 	if len(stale) > 0 {
@@ -235,6 +248,33 @@ func runCold(c *caseT) string {
 	}
 	lines := strings.Split(text, "\n")
 	return c.ID + "\t" + lines[len(lines)-1]
+}
+
+// runColdHist runs a history in a brand-new process: its first operation is the first library call that
+// process ever makes (no ambient history, nothing initialised lazily yet).
+func runColdHist(c *caseT) string {
+	self, _ := os.Executable()
+	cmd := exec.Command(self, "coldhistchild")
+	raw, _ := json.Marshal(c)
+	cmd.Stdin = strings.NewReader(string(raw) + "\n")
+	out, err := cmd.CombinedOutput()
+	text := strings.TrimSpace(string(out))
+	if err != nil {
+		return c.ID + "\tCOLD=died:" + hx(text[max(0, len(text)-300):])
+	}
+	lines := strings.Split(text, "\n")
+	return lines[len(lines)-1]
+}
+
+func coldHistChild() {
+	in := bufio.NewReaderSize(os.Stdin, 1<<20)
+	line, _ := in.ReadBytes('\n')
+	var c caseT
+	if err := json.Unmarshal(line, &c); err != nil {
+		fmt.Println("?\tCOLD=badcase")
+		os.Exit(3)
+	}
+	fmt.Println(runHist(&c))
 }
 
 func coldChild() {
